@@ -82,8 +82,9 @@ def canon_args(args):
 
 class OpGen(object):
     def __init__(self, rng, schema, max_depth=4, p_var=0.3, p_directive=0.2, p_fragment=0.3,
-                 allow_custom_directives=True):
+                 allow_custom_directives=True, p_twin=0.3):
         self.rng, self.s = rng, schema
+        self.p_twin = p_twin
         self.max_depth = max_depth
         self.p_var, self.p_directive, self.p_fragment = p_var, p_directive, p_fragment
         self.allow_custom = allow_custom_directives
@@ -99,11 +100,14 @@ class OpGen(object):
         return self.rng.random() < p
 
     # -- values / variables ----------------------------------------------
-    def arg_value(self, t, allow_var=True):
+    def arg_value(self, t, allow_var=True, position_has_default=False):
         """Literal IR value for type t, possibly a variable (whole or nested)."""
         rng = self.rng
-        if allow_var and self.cur_vars is not None and self.chance(self.p_var):
-            return self.new_var(t)
+        p_var = self.p_var
+        if position_has_default and t[0] == "nonnull" and p_var > 0:
+            p_var = max(p_var, 0.5)
+        if allow_var and self.cur_vars is not None and self.chance(p_var):
+            return self.new_var(t, position_has_default=position_has_default)
         v = self.sg.input_value_for(t)
         if allow_var and self.cur_vars is not None and isinstance(v, dict) and v and self.chance(0.3):
             # nest a variable inside an object literal
@@ -115,14 +119,22 @@ class OpGen(object):
                 self.doc.features.add("nested-variable")
         return v
 
-    def new_var(self, t, nested=False):
+    def new_var(self, t, nested=False, position_has_default=False):
         rng = self.rng
         self.var_counter += 1
         name = "v%d" % self.var_counter
         vt = t
         default = UNSET
         r = rng.random()
-        if t[0] != "nonnull" and r < 0.3:
+        if t[0] == "nonnull" and position_has_default and rng.random() < 0.6:
+            name = "vn%d" % self.var_counter      # variable_values() makes these null more often
+            # a nullable variable is allowed where the non-null position has a default; an explicit
+            # null then fails the coercion of that argument at every execution of the field
+            vt = S.nullable(t)
+            self.doc.features.add("nullable-variable-in-defaulted-non-null-argument")
+            if r < 0.3:
+                default = self.sg.input_value_for(vt)
+        elif t[0] != "nonnull" and r < 0.3:
             vt = S.nn(t)                 # stricter variable into nullable position
         elif r < 0.55 and not nested:
             d = self.sg.input_value_for(t)
@@ -139,7 +151,7 @@ class OpGen(object):
         for a in f.args:
             required = a.type[0] == "nonnull" and not a.has_default
             if required or self.chance(0.6):
-                args[a.name] = self.arg_value(a.type)
+                args[a.name] = self.arg_value(a.type, position_has_default=a.has_default)
         if len(args) > 1 and self.chance(0.3):
             items = list(args.items())
             self.rng.shuffle(items)
@@ -247,6 +259,69 @@ class OpGen(object):
             sels.append(OField("__typename", scope))
         return sels
 
+    # -- twins ------------------------------------------------------------
+    def _twin_value(self, v):
+        """Deterministic, type-preserving change of a literal (variables, enums and null stay)."""
+        if isinstance(v, (Var, EnumLit)) or v is None or v is UNSET:
+            return v
+        if isinstance(v, bool):
+            return not v
+        if isinstance(v, int):
+            return v + 1 if v < 1000 else v - 1
+        if isinstance(v, float):
+            return v + 1.0
+        if isinstance(v, str):
+            return v + "x"
+        if isinstance(v, list):
+            return [self._twin_value(x) for x in v]
+        if isinstance(v, dict):
+            return collections.OrderedDict((k, self._twin_value(x)) for k, x in v.items())
+        return v
+
+    def _twin_selection(self, sels, depth=0):
+        out = []
+        for x in sels:
+            if x.kind == "field":
+                args = collections.OrderedDict((k, self._twin_value(v)) for k, v in x.args.items())
+                sub = self._twin_selection(x.selection, depth + 1) if x.selection is not None else None
+                out.append(OField(x.name, x.parent, x.alias, args, list(x.directives), sub))
+            elif x.kind == "inline":
+                out.append(OInline(x.type_cond, self._twin_selection(x.selection, depth + 1), list(x.directives)))
+            else:
+                fr = self.doc.fragments[x.name]
+                dirs = [d for d in x.directives if d[0] in ("skip", "include")]
+                out.append(OInline(fr.type_cond, self._twin_selection(fr.selection, depth + 1), dirs))
+        if len(out) > 1 and self.chance(0.3):
+            del out[self.rng.randrange(len(out))]
+        return out
+
+    def add_twin(self, sel):
+        """Repeat one object-typed field under a fresh alias with the *same response keys* below it but
+        changed literal arguments / a pruned sub-selection (named spreads are expanded so that the copy
+        merges with nothing). Anything that identifies a sub-selection by parent type and response keys
+        alone confuses the two."""
+        places = []
+
+        def walk(sels):
+            for i, x in enumerate(sels):
+                if x.kind == "field" and x.selection is not None:
+                    places.append((sels, i))
+                    walk(x.selection)
+                elif x.kind == "inline":
+                    walk(x.selection)
+
+        walk(sel)
+        for fr in self.cur_frags or []:
+            walk(fr.selection)
+        if not places:
+            return
+        sels, i = self.rng.choice(places)
+        x = sels[i]
+        args = collections.OrderedDict((k, self._twin_value(v)) for k, v in x.args.items())
+        twin = OField(x.name, x.parent, "tw_" + (x.alias or x.name), args, [], self._twin_selection(x.selection))
+        sels.insert(i + 1, twin)
+        self.doc.features.add("twin")
+
     def operation(self, kind=None, name=None):
         s, rng = self.s, self.rng
         kinds = [k for k, n in s.roots() if k != "subscription"]
@@ -261,6 +336,8 @@ class OpGen(object):
             sel[0].directives = [d for d in sel[0].directives if d[0] not in ("skip", "include")]
         else:
             sel = self.selection_set(root, 0, top=True)
+            if self.chance(self.p_twin):
+                self.add_twin(sel)
         op = OOperation(kind, name, sel, self.cur_vars, self.directives_for(kind.upper(), 0.1))
         self.cur_vars = None
         self.cur_frags = None
@@ -360,7 +437,7 @@ def variable_values(rng, sg, op, nested=(), mode="valid"):
         optional = t[0] != "nonnull" or default is not UNSET
         if optional and r < 0.25 and name not in nested:
             continue                      # omitted
-        if t[0] != "nonnull" and r < 0.35:
+        if t[0] != "nonnull" and r < (0.6 if name.startswith("vn") else 0.35):
             out[name] = None              # explicit null
             continue
         out[name] = to_json_value(sg.input_value_for(t, allow_null=(t[0] != "nonnull")))
